@@ -61,6 +61,32 @@ theorem idxOf_inj {l : List Nat} {a b : Nat} (ha : a ∈ l) (h : l.idxOf a = l.i
   have := List.idxOf_inj (l := l) (x := a) (y := b) ha
   exact this.1 h
 
+/-! ### the driver's tabulation is the identity -/
+
+theorem freeze_eq {K : Type} (m : Nat) (X : Mat K) : freeze m X = X := by
+  funext i j
+  simp only [freeze]
+  split
+  · simp
+  · rfl
+
+theorem freezeV_eq {K : Type} (m : Nat) (r : Nat → K) : freezeV m r = r := by
+  funext i
+  simp only [freezeV]
+  split
+  · simp
+  · rfl
+
+theorem compileGUFast_eq {K : Type} [Zero K] [One K] [Add K] [Mul K] [Neg K] [DecidableEq K]
+    (registers : List Nat) (cmds : List (GCmd K)) : compileGUFast registers cmds = compileGU registers cmds := by
+  simp only [compileGUFast, compileGU, freeze_eq, freezeV_eq]
+
+theorem compilePFast_eq {K : Type} [Zero K] [One K] [Add K] [Mul K]
+    (registers : List Nat) (cmds : List (PCmd K)) : compilePFast registers cmds = compileP registers cmds := by
+  have : (freeze : Nat → Mat K → Mat K) = fun _ T => T := by
+    funext m X; exact freeze_eq m X
+  simp only [compilePFast, compileP, this]
+
 /-! ### dot products -/
 section dot
 variable {K : Type} [CommRing K]
@@ -314,7 +340,7 @@ theorem compileGU_net [DecidableEq K] (registers : List Nat) (cmds : List (GCmd 
     intro m hm
     obtain ⟨c, hc, hmc⟩ := List.mem_flatMap.1 hm
     exact hreg c hc m hmc
-  simp only [compileGU, hregs, netSpecGU]
+  simp only [compileGU, compileGUWith, hregs, netSpecGU]
   refine ⟨trivial, trivial, ?_⟩
   refine foldlGU_refines (dictIdx (usedModes cmds)) _ cmds ?_ _ _ ⟨fun _ _ _ => rfl, fun _ _ => rfl⟩
   intro c hc
@@ -388,7 +414,7 @@ theorem compileP_net (registers : List Nat) (cmds : List (PCmd K))
     intro m hm
     obtain ⟨c, hc, hmc⟩ := List.mem_flatMap.1 hm
     exact hreg c hc m hmc
-  simp only [compileP, hregs, netSpecP]
+  simp only [compileP, compilePWith, hregs, netSpecP]
   refine ⟨trivial, trivial, ?_⟩
   refine foldlP_refines (dictIdx (usedModesP cmds)) _ cmds ?_ _ _ (fun _ _ _ => rfl)
   intro c hc
@@ -417,7 +443,7 @@ theorem compileGU_emit [DecidableEq K] (registers : List Nat) (cmds : List (GCmd
       e = ((compileGU registers cmds).regs.getD i 0, (compileGU registers cmds).r i,
         (compileGU registers cmds).r (i + (compileGU registers cmds).n)) ∧
       ¬ ((compileGU registers cmds).r i = 0 ∧ (compileGU registers cmds).r (i + (compileGU registers cmds).n) = 0)) := by
-  simp only [compileGU]
+  simp only [compileGU, compileGUWith]
   generalize List.foldl (stepGU (dictIdx (usedModes cmds)) (usedModes cmds).length)
     ({ S := ident, r := fun _ => 0 } : Net K) cmds = net
   refine ⟨?_, ?_, ?_⟩
